@@ -956,6 +956,40 @@ def _project_base(interp, k):
     return all(not isinstance(b, str) or b == 'object' for b in k.bases)
 
 
+
+_REBOUND = {}
+
+
+def _module_rebinding(info):
+    """Line of a module-level assignment that binds the name of a module-level def again (0 if there is none)."""
+    m = info.module
+    key = (m.relpath, id(m.tree))
+    if key not in _REBOUND:
+        found = {}
+
+        def scan(body):
+            for st in body:
+                if isinstance(st, (ast.FunctionDef, ast.AsyncFunctionDef, ast.ClassDef)):
+                    continue
+                if isinstance(st, (ast.Assign, ast.AnnAssign, ast.AugAssign)):
+                    tgts = st.targets if isinstance(st, ast.Assign) else [st.target]
+                    val = st.value
+                    for t in tgts:
+                        for n in ast.walk(t):
+                            if isinstance(n, ast.Name) and isinstance(n.ctx, ast.Store) and n.id in m.functions \
+                                    and m.functions[n.id].node.lineno < st.lineno \
+                                    and not (isinstance(val, ast.Name) and val.id == n.id):
+                                found.setdefault(n.id, st.lineno)
+                for fld in ('body', 'orelse', 'finalbody'):
+                    sub = getattr(st, fld, None)
+                    if isinstance(sub, list):
+                        scan(sub)
+                for h in getattr(st, 'handlers', []) or []:
+                    scan(h.body)
+        scan(m.tree.body)
+        _REBOUND[key] = found
+    return _REBOUND[key].get(info.name, 0) if m.functions.get(info.name) is info else 0
+
 class AbsInt:
     def __init__(self, folder: Folder, summaries=None, max_depth=30, extra_exc_parents=None):
         self.f = folder
@@ -1072,6 +1106,12 @@ class AbsInt:
                 self.f.module_namespace(info.module)
                 if info.qname not in self.f.transparent_decorated:
                     raise Unsupported(f'decorator @{dn} on {info.qname} is not modelled (it may cache or alter the function)')
+        if not trusted and info.cls is None and closure is None:
+            line = _module_rebinding(info)
+            if line:
+                # `f = wrap(f)` after the def is a decorator written out: the name no longer means the function analysed here
+                raise Unsupported(f'{info.qname} is bound again at module level (line {line}): calls through that name reach whatever '
+                                  'the assignment made of it (a wrapper that may cache, skip or alter the call), which is not modelled')
         key = (info.qname, id(args[0]) if args else None)
         stack = self.__dict__.setdefault('_callstack', [])
         if stack.count(key) >= 4:
